@@ -59,7 +59,7 @@ func checkQuitUnregisters(c *core.Ctx, rule string) {
 		return
 	}
 	// every success return after the quorum passed goes through that delete
-	quorum := ir.PassEdges(aq, ir.BoolIs(ir.CallTo(ccs), true))
+	quorum := eng.PassEdgesThrough(aq, ir.BoolIs(ir.CallTo(ccs), true))
 	if len(quorum) == 0 {
 		c.Broken(rule, aq, "CheckConsensusSigns == true edge", c.P.Rel(aq.Pos()), "not found")
 		return
